@@ -491,6 +491,44 @@ func checkC19(c *Ctx) {
 			}
 		})
 		eachInstr(ad, func(in ssa.Instruction) { isExt(in) })
+		// the extension by byteIdx+1-len(data) is made only when that amount is positive (make panics on a negative
+		// length): the growing call is reached only under len(data) <= byteIdx, unless it is an ensure-size helper that
+		// makes the test itself
+		needed := func(fs []Fact) bool {
+			for _, f := range fs {
+				if f.Op == "<=" && strings.HasPrefix(f.L, "builtin len(") && strings.Contains(f.R, kIndexCall) {
+					return true
+				}
+				if f.Op == "<" && f.L == "c:0" && strings.Contains(f.R, kIndexCall) && strings.Contains(f.R, "- builtin len(") {
+					return true
+				}
+			}
+			return false
+		}
+		eachInstr(ad, func(in ssa.Instruction) {
+			grows := growAmount(ad, in) != ""
+			if ci, isCall := in.(ssa.CallInstruction); isCall && !grows {
+				if cal := ci.Common().StaticCallee(); cal != nil && cal != ad && cal.Blocks != nil && funcPkgPath(cal) == funcPkgPath(ad) && len(ci.Common().Args) == 2 {
+					eachInstr(cal, func(x ssa.Instruction) {
+						if growAmount(cal, x) == "p1" {
+							grows = true // grows by exactly its argument, whatever its sign
+						}
+					})
+				}
+			}
+			if !grows {
+				return
+			}
+			okN := false
+			for f := range fl.At(in) {
+				if needed([]Fact{f}) {
+					okN = true
+				}
+			}
+			if !okN && !branchDominates(fl, in, func(f Fact) bool { return needed([]Fact{f}) }) {
+				ok = false
+			}
+		})
 		c.Check(ok && n > 0 && extOK, "C19.5", "Add: extends before setting", p.FuncPos(ad), "the bit is set only with byteIdx < len(data), after growing data by byteIdx+1-len(data) fresh zero bytes otherwise (append(data, make([]byte, n)...))",
 			"the set operation is reachable without byteIdx < len(data) and without the recognised extension (data = append(data, make([]byte, byteIdx+1-len(data))...), which grows the set by zero bytes): either the index is out of range, or the new bytes are not known to be zero (bytes between len and cap that an adopted slice left behind become members)")
 	}
